@@ -207,57 +207,93 @@ def _flag_writes(ctx, R, body):
 
 
 def r1_3(ctx, R):
-    ctx.rule("R1.3", "flag cleared between dequeue and child poll: the flag is written false only in POP, dominated by "
-                     "the successful-dequeue edge; functions that lock the flag are {MARK, wake path, POP}; every "
+    ctx.rule("R1.3", "flag cleared between dequeue and child poll: the flag is written false only in POP (after a "
+                     "successful dequeue) or in a helper called only by DRAIN; on every path from a successful dequeue the "
+                     "flag of the dequeued slot is cleared before the child poll, before the next dequeue and before "
+                     "returning (so a wake during or after the poll re-queues the slot, and a skipped vacant slot does not "
+                     "stay marked 'queued'); functions that lock the flag are {POP, MARK, wake path, such helpers}; every "
                      "CHILD-POLL in DRAIN is dominated by a POP 'ready' arm of the same loop iteration")
+    from lib_facts import place_str
     pop = R.pop_fn
-    allowed = {pop.path} | {b.path for b in R.enq_fns}
+    drains = R.drain_fns
+    drain_paths = {d.path for d in drains}
     lockers = [b for b in ctx.facts.fn_bodies() if R.flag_lock_sites(b)]
+    # clear helpers: functions (other than POP / enqueuers) whose flag writes are all `false` and whose callers are all DRAIN
+    helpers = []
     for b in lockers:
-        ctx.ob("R1.3", b, "who-may-lock-flag", b.path in allowed, d_loc(b), "allowed roles: POP, MARK, wake path")
+        if b.path == pop.path or b in R.enq_fns:
+            continue
+        ws = _flag_writes(ctx, R, b)
+        callers = [c.path for c, _ in R.callers_of(b)]
+        if ws and all(v == "0" for _, v in ws) and callers and all(c in drain_paths for c in callers):
+            helpers.append(b)
+    allowed = {pop.path} | {b.path for b in R.enq_fns} | {h.path for h in helpers}
+    for b in lockers:
+        ctx.ob("R1.3", b, "who-may-lock-flag", b.path in allowed, d_loc(b), "allowed roles: POP, MARK, wake path, clear helper of DRAIN")
         for bb, v in _flag_writes(ctx, R, b):
             if v != "1":
-                ctx.ob("R1.3", b, "writes-%s" % ("false" if v == "0" else "nonconst"), b.path == pop.path and v == "0",
-                       b.loc(bb), "only POP may clear the flag")
+                ok = v == "0" and (b.path == pop.path or b in helpers)
+                ctx.ob("R1.3", b, "writes-%s" % ("false" if v == "0" else "nonconst"), ok, b.loc(bb), "only POP / DRAIN's clear helper may clear the flag")
     ctx.floor("R1.3", "flag-lockers", len(lockers), 3)
-    # in POP: clear dominated by Ok edge of dequeue
+    # does POP itself clear on its successful-dequeue path?
     fl = ctx.flow(pop)
     vf = variant_facts(pop, fl)
     deq = direct_sites(pop, r"cordyceps::MpscQueue::<.*>::try_dequeue")
     clears = [bb for bb, v in _flag_writes(ctx, R, pop) if v == "0"]
-    ctx.floor("R1.3", "flag-clear-in-pop", len(clears), 1)
+    pop_clears = False
     for dbb, dt, dfn in deq:
-        from lib_facts import place_str
         dest = place_str(dt["dest"])
         okb = blocks_with(vf, [(dest, "Ok")])
         for c in clears:
             ctx.ob("R1.3", pop, "clear-after-successful-dequeue", c in okb and pop.dominates(dbb, c), pop.loc(c),
                    "clear block has fact %s=Ok: %s" % (dest, c in okb))
-        # POP returns its 'ready' variant only on that path and after the clear
+        # every 'ready' value returned by POP is preceded by the clear
+        ready_returns = []
         for rb in range(pop.n):
             if pop.is_cleanup(rb):
                 continue
-            for s in pop.stmts(rb):
-                if s["k"] == "assign" and s["place"]["l"] == 0 and not s["place"]["p"] and s["rv"]["k"] == "aggregate" \
-                        and s["rv"].get("ops"):
-                    ok = rb in okb and any(pop.dominates(c, rb) for c in clears)
-                    ctx.ob("R1.3", pop, "ready-variant-returned-after-clear", ok, pop.loc(rb))
-    # in DRAIN: child poll dominated by pop-ready arm of same iteration
+            for s_ in pop.stmts(rb):
+                if s_["k"] == "assign" and s_["place"]["l"] == 0 and not s_["place"]["p"] and s_["rv"]["k"] == "aggregate" and s_["rv"].get("ops"):
+                    ready_returns.append(rb)
+                    ctx.ob("R1.3", pop, "ready-variant-only-after-successful-dequeue", rb in okb, pop.loc(rb))
+        pop_clears = bool(clears) and bool(ready_returns) and all(any(pop.dominates(c, rb) for c in clears) for rb in ready_returns)
     n = 0
-    for d in R.drain_fns:
+    for d in drains:
         dfl = ctx.flow(d)
         dvf = variant_facts(d, dfl)
         pops = R.pop_sites(d)
-        for cbb, ct, cfn in R.child_poll_sites(d):
+        polls = R.child_poll_sites(d)
+        for cbb, ct, cfn in polls:
             n += 1
             ok = False
             for pbb, pt, pfn in pops:
-                from lib_facts import place_str
                 dest = place_str(pt["dest"])
                 ready_variants = _payload_variants(ctx, pt["dest"]["ty"])
                 if any((dest, v) in dvf.get(cbb, frozenset()) for v in ready_variants) and d.dominates(pbb, cbb):
                     ok = True
             ctx.ob("R1.3", d, "child-poll-behind-pop-ready@%s" % _site_label(d, cbb), ok, d.loc(cbb))
+        # clear obligation per dequeue site
+        for pbb, pt, pfn in pops:
+            dest = place_str(pt["dest"])
+            ready_variants = _payload_variants(ctx, pt["dest"]["ty"])
+            if pop_clears:
+                ctx.ob("R1.3", d, "dequeued-slot-flag-cleared@%s" % _site_label(d, pbb), True, d.loc(pbb), "cleared inside POP before it returns the slot")
+                continue
+            region = set()
+            for v in ready_variants:
+                region |= blocks_with(dvf, [(dest, v)])
+            from lib_flow import must_pass_flags
+            ents = first_entries(d, dfl, pbb, region)
+            clear_sites = []
+            for h in helpers:
+                for hbb, ht, hfn in R.calls_to_body(d, h):
+                    idx = dfl.operand_expr(ht["args"][-1])
+                    if idx[0] == "proj" and idx[1][0] == "call" and idx[1][3] == pbb:
+                        clear_sites.append(hbb)
+            stops = d.returns() + [x[0] for x in polls] + [pbb]
+            ok = bool(ents) and bool(clear_sites) and all(must_pass_flags(d, dfl, e, stops, clear_sites) for e in ents)
+            ctx.ob("R1.3", d, "dequeued-slot-flag-cleared@%s" % _site_label(d, pbb), ok, d.loc(pbb),
+                   "POP does not clear; clear-helper calls on the dequeued index: %s; must precede child poll / next dequeue / return on every path" % [d.loc(c) for c in clear_sites])
     ctx.floor("R1.3", "child-poll-sites", n, 1)
 
 
@@ -638,8 +674,8 @@ def r1_8(ctx, R):
         ctx.ob("R1.8", b, "from_raw-site", ok, b.loc(bb))
     for b, bb in nw:
         ctx.ob("R1.8", b, "noop-waker", False, b.loc(bb), "no-op waker in library code")
-    ctx.floor("R1.8", "from_waker-sites", len(fw), 1, 1)
-    ctx.floor("R1.8", "from_raw-sites", len(fr), 1, 1)
+    ctx.floor("R1.8", "from_waker-sites", len(fw), 1)
+    ctx.floor("R1.8", "from_raw-sites", len(fr), 1)
 
 
 def run(ctx):
